@@ -5,7 +5,10 @@
 (*   - no two goroutines were inside the critical window at the same time with conflicting lock keys,         *)
 (*   - the outcome (result classes, final observables) is the result of SOME one-at-a-time order of the same   *)
 (*     requests: admitted set conflict-free, selections disjoint, no request hangs or panics (OutcomeOK),      *)
-(*   - balances answered by the node are those of its unspent outputs,                                         *)
+(*   - balances answered by the node (State.GetBalance: from its balance cache, which the driver has filled by   *)
+(*     asking for every party's balance BEFORE the requests) are those of its unspent outputs (the raw utxo     *)
+(*     table) AND those implied by the admitted set (genesis, awards, the pending transactions and the block):  *)
+(*     a refused request - at whatever stage it was refused - leaves no trace in them,                          *)
 (*   - the selection locks left behind are those of the outputs handed to successful locking selectors,        *)
 (*   - the one-at-a-time epilogue (every transaction once more) behaves as on the final state (no lock left).  *)
 (* ACTUAL: with KF_SharedLockRefCountRace a run in which the window of the reference-count protocol was hit    *)
@@ -21,6 +24,15 @@ Pairs(seq) == {<<r[1], r[2]>> : r \in ToSet(seq)}
 ObsRec(o) == [utxo |-> Pairs(o.utxo), ver |-> o.ver, pool |-> ToSet(o.pool), total |-> o.total, ptr |-> o.ptr]
 ResOf(ev) == [p \in 1..Len(ev.res) |-> [c |-> ev.res[p].c, outs |-> Pairs(ev.res[p].outs)]]
 BalOK(o) == \A i \in 1..Len(Addrs) : o.bal[i] = Bal(ObsRec(o), Addrs[i])
+(* the outputs the admitted set leaves unspent: computed from the pool and the tip alone, not from the utxo table *)
+AdmittedUtxo(scn, o) ==
+  LET A == ToSet(o.pool) \cup (IF o.ptr = 2 THEN Range(BlockOf[FamOf(scn)]) ELSE {})
+      made == OutIds("g") \cup OutIds("aw1") \cup (IF o.ptr = 2 THEN OutIds("aw2") ELSE {}) \cup UNION {RealOuts(t) : t \in A} IN
+  made \ UNION {TX[t].ins : t \in A}
+BalAdmOK(scn, o) == /\ ToSet(o.pool) \subseteq DOMAIN TX
+                    /\ \A i \in 1..Len(Addrs) : o.bal[i] = SumAmt({u \in AdmittedUtxo(scn, o) : Owner(u) = Addrs[i]})
+(* before the requests: the prelude on block 1 *)
+Bal0OK(scn, b) == \A i \in 1..Len(Addrs) : b[i] = Bal(Start(FamOf(scn)), Addrs[i])
 
 Judge(ev) ==
   IF ev.op # "run" THEN [ok |-> FALSE, dev |-> {}, why |-> ev.op]
@@ -30,7 +42,8 @@ Judge(ev) ==
       O == ObsRec(ev.obs)
       over == OverlapKeys(scn, ev.steps)
       selOK == SelLocksOK(scn, R, O, Pairs(ev.obs.free))
-      rest == BalOK(ev.obs) /\ BalOK(ev.obs2) /\ selOK /\ EpilogueOK(scn, O, ev.epi, ObsRec(ev.obs2))
+      balOK == Bal0OK(scn, ev.bal0) /\ BalOK(ev.obs) /\ BalOK(ev.obs2) /\ BalAdmOK(scn, ev.obs) /\ BalAdmOK(scn, ev.obs2)
+      rest == balOK /\ selOK /\ EpilogueOK(scn, O, ev.epi, ObsRec(ev.obs2))
       race == IF ~KF_SharedLockRefCountRace THEN {}
               ELSE IF ev.mode = "gated" THEN RaceWindowKeys(scn, ev.steps) ELSE RaceKeys(scn) IN
   IF over = {} /\ OutcomeOK(scn, R, O, {}) /\ rest THEN [ok |-> TRUE, dev |-> {}, why |-> ""]
@@ -38,7 +51,10 @@ Judge(ev) ==
        THEN [ok |-> TRUE, dev |-> {"KF_SharedLockRefCountRace"}, why |-> ""]
   ELSE [ok |-> FALSE, dev |-> {},
         why |-> IF over # {} THEN "exclusion" ELSE IF ~OutcomeOK(scn, R, O, {}) THEN "outcome"
-                ELSE IF ~(BalOK(ev.obs) /\ BalOK(ev.obs2)) THEN "balance" ELSE IF ~selOK THEN "selection_lock" ELSE "epilogue"]
+                ELSE IF ~Bal0OK(scn, ev.bal0) THEN "balance_before_the_requests"
+                ELSE IF ~(BalOK(ev.obs) /\ BalOK(ev.obs2)) THEN "balance_vs_utxo_table"
+                ELSE IF ~balOK THEN "balance_vs_admitted_set"
+                ELSE IF ~selOK THEN "selection_lock" ELSE "epilogue"]
 
 TInit == InitFor(<<"p2", "p3">>) /\ l = 1 /\ div = NoDiv /\ devAll = {} /\ TLCSet(1, 1) /\ TLCSet(2, NoDiv) /\ TLCSet(3, {})
 TStep ==
